@@ -11,3 +11,9 @@ package tilecover
 //@   modifies nothing
 //@   ensures result != nil && len(result) == 1 && has(result, maptile.At(ll, z)) && result[maptile.At(ll, z)]
 
+
+// the level-by-level merge stops early only when fewer than four tiles are left at the current level
+// (four could still be a complete sibling quad), otherwise it runs down to the requested zoom
+//@ func MergeUp(set, min)
+//@   mode bv
+//@   loop 2: exit len(set) < 4 || z <= min
